@@ -3810,7 +3810,9 @@ scaled_bilinear_scanline_mmx_8888_8_8888_OVER (uint32_t *       dst,
 	{
 	    BILINEAR_INTERPOLATE_ONE_PIXEL (pix1);
 
-	    if (m == 0xff && is_opaque (pix1))
+	    /* pix1 is packed; is_opaque() wants the 16 bit per channel form */
+	    if (m == 0xff &&
+		is_opaque (_mm_unpacklo_pi8 (pix1, _mm_setzero_si64 ())))
 	    {
 		store (dst, pix1);
 	    }
